@@ -1,6 +1,7 @@
 (* C10 -- property theorems only.  Proofs live in C10/Proofs1.v, Proofs2.v. *)
 From Coq Require Import NArith List Permutation.
-From DV Require Import Base.Outcome C10.Gen C10.Model C10.Proofs1 C10.Proofs2 C10.Proofs3 C10.Proofs4 C10.Proofs5 C10.Proofs6 C10.Proofs7.
+From DV Require Import Base.Outcome C10.Gen C10.Model C10.Proofs1 C10.Proofs2 C10.Proofs3 C10.Proofs4 C10.Proofs5 C10.Proofs6 C10.Proofs7 C10.Proofs8 C10.Proofs9.
+From DV Require C09.Gen C09.Model C09.Proofs C17.Gen C17.Model.
 Import ListNotations.
 Local Open Scope N_scope.
 
@@ -310,3 +311,69 @@ Theorem C10_client_agrees_ixfr : forall snew ds ms cs,
   client_stream (client_init 251) ms = (repeat true (length ms), true).
 Proof. exact client_agrees_ixfr. Qed.
 Print Assumptions C10_client_agrees_ixfr.
+
+(* capture -> DiffFunneler -> batcher -> interpreter -> updater: the diff the
+   zone itself reports for a good batch, sent as an IXFR, takes a receiver at the
+   old content to the new content *)
+Theorem C10_real_diff_transfer_identity : forall key_of pub body s t rem add d size limit chunks,
+  pub_ok pub = true -> ukeys pub -> keyed key_of pub ->
+  good_body body (d_start pub) = true ->
+  last (c10_diff pub (body ++ [DFinish s t])) None = Some (rem, add) ->
+  funnel (rem, add) = Some d ->
+  (forall r1 r2, size r1 + size r2 <= limit) ->
+  batch size limit (sender_hard false 251) (ixfr_seq (d_new d) [d]) = Ok chunks ->
+  exists us st, run None (sender_msgs 251 chunks) = (us, SDone) /\
+    c10_apply (store_zone pub) us = Ok st /\ u_fin st = true /\
+    zeq (u_visible st) (store_zone (content_after pub (body ++ [DFinish s t]))).
+Proof. exact (real_diff_transfer_identity updater_checks_batch_soa). Qed.
+Print Assumptions C10_real_diff_transfer_identity.
+
+(* the (visible, working) pair, derived from C09's versioned store for one RRset *)
+Theorem C10_cell_refines_pair : forall {T} w (b : list (C09.Model.entry T)) (os : list (@wop T)),
+  C09.Proofs.desc b -> C09.Proofs.le_all (w - 1) b -> 0 < w -> w < C09.Proofs.LIM ->
+  let cell := C09.Model.c_run b (map (to_cop w) os) in
+  (forall r, C09.Proofs.ver_le w r = false -> C09.Model.v_get cell r = C09.Model.v_get b r) /\
+  C09.Model.v_get cell w = pair_work (C09.Model.v_get b w) os /\
+  C09.Model.v_rollback cell w = b.
+Proof. exact @cell_refines_pair. Qed.
+Print Assumptions C10_cell_refines_pair.
+
+(* XfrMiddlewareSvc::preprocess decision table *)
+Theorem C10_decide_up_to_date : forall qs zs udp n compat,
+  n <> 0 -> C17.Model.serial_ge qs zs = true ->
+  decide (xfr_request 251 (Some qs) udp) (PData n compat) (Some zs) = DSingleSoa.
+Proof. exact decide_up_to_date. Qed.
+Print Assumptions C10_decide_up_to_date.
+
+Theorem C10_decide_behind : forall qs zs udp n compat,
+  n <> 0 -> C17.Model.serial_ge qs zs = false ->
+  decide (xfr_request 251 (Some qs) udp) (PData n compat) (Some zs) = DIxfr.
+Proof. exact decide_behind. Qed.
+Print Assumptions C10_decide_behind.
+
+Theorem C10_decide_fallback : forall ser udp compat zs,
+  decide (xfr_request 251 (Some ser) udp) (PData 0 compat) (Some zs) = DAxfr false.
+Proof. exact decide_fallback. Qed.
+Print Assumptions C10_decide_fallback.
+
+Theorem C10_decide_axfr : forall compat zs,
+  decide (xfr_request 252 None false) (PData 0 compat) (Some zs) = DAxfr compat /\
+  decide (xfr_request 252 None true) (PData 0 compat) (Some zs) = DNotimp.
+Proof. exact decide_axfr. Qed.
+Print Assumptions C10_decide_axfr.
+
+Theorem C10_decide_errors : forall q ser udp zs,
+  (q = 252 \/ (q = 251 /\ ser <> None)) ->
+  decide (xfr_request q ser udp) PUnknown zs = DErr 9 /\
+  decide (xfr_request q ser udp) PRefused zs = DErr 5 /\
+  decide (xfr_request q ser udp) PUnavailable zs = DErr 2 /\
+  decide (xfr_request q ser udp) PParse zs = DErr 1 /\
+  (forall n c, decide (xfr_request q ser udp) (PData n c) None = DErr 2) /\
+  decide (xfr_request 251 None udp) PUnknown zs = DErr 1.
+Proof. exact decide_errors. Qed.
+Print Assumptions C10_decide_errors.
+
+Theorem C10_decide_no_panic : forall rq pr zs,
+  (forall n c, pr = PData n c -> rq_qtype rq = 252 -> n = 0) -> decide rq pr zs <> DPanic.
+Proof. exact decide_no_panic. Qed.
+Print Assumptions C10_decide_no_panic.
